@@ -18,7 +18,7 @@
 From Coq Require Import List NArith Bool Arith String.
 From Coq.Strings Require Import Byte.
 Import ListNotations.
-From OV Require Import Base.Bytes Base.Cases Base.Tree.
+From OV Require Import Base.Bytes Base.Cases Base.Tree Gen.StreamSplit.
 
 (* ---- names and selection -------------------------------------------------------------------- *)
 (* What an xpath name test sees of a node: navigator.Prefix() and navigator.LocalName(). *)
@@ -259,15 +259,35 @@ Section Reader.
   Definition attr_node (a : bytes * fspec * bytes) : tree :=
     let '(n, f, v) := a in T AttributeNode n f [text_node v].
 
+  (* addTextChild: a text node appended below cur; cur stays *)
+  Definition add_text (st : state) (t : tree) : state :=
+    match s_stack st with
+    | [] => st
+    | f :: r => mkS (add_kid f t :: r) None (s_stream st)
+    end.
+  (* sp.cur = sp.cur.Parent *)
+  Definition back_off (st : state) : state :=
+    match s_stack st with
+    | f :: p :: up => mkS (add_kid p (close_frame f) :: up) None (s_stream st)
+    | [f] => mkS [] (Some (close_frame f)) (s_stream st)
+    | [] => st
+    end.
+  (* one turn of the attribute loop of parse(): addNonTextChild(AttributeNode, attr.Name) makes the
+     attribute node cur, addTextChild(attr.Value) hangs the value below it - also when the value is
+     empty -, then cur goes back to the element *)
+  Definition add_attr (st : state) (a : bytes * fspec * bytes) : state :=
+    let '(n, f, v) := a in
+    back_off (add_text (push (mkF AttributeNode n f []) st) (text_node v)).
+  (* case xml.StartElement: the element becomes cur, the attribute loop, streamCandidateCheck *)
+  Definition xstart (st : state) (nm : bytes) (fs : fspec) (attrs : list (bytes * fspec * bytes)) : state :=
+    candidate_check (fold_left add_attr attrs (push (mkF ElementNode nm fs []) st)).
+
   Definition xstep (st : state) (tk : xtoken) : stepres :=
     match tk with
     | XStart nm fs attrs =>
         match s_stack st with
         | [] => RPanic                               (* AddChild(sp.cur == nil, ...) *)
-        | _ =>
-            (* element node appended and made cur; per attribute: attribute node, its text child,
-               cur back to the element; then streamCandidateCheck *)
-            RCont (candidate_check (push (mkF ElementNode nm fs (map attr_node attrs)) st))
+        | _ => RCont (xstart st nm fs attrs)
         end
     | XEnd => wrap_up st
     | XText s =>
@@ -276,7 +296,6 @@ Section Reader.
         | f :: r => RCont (mkS (add_kid f (text_node s) :: r) None (s_stream st))
         end
     end.
-
 
   (* Read to EOF.  [rel] says, per delivery, whether the caller calls Release before the next
      Read (the next Read removes the node anyway).  Tokens are what xml.Decoder.Token returns,
@@ -320,11 +339,6 @@ Section Reader.
     | JBoolT b => Some (T TextNode (if b then b_true else b_false) (FJson J_BOOL) [])
     | JNullT => Some (T TextNode [] (FJson J_NULL) [])
     | _ => None
-    end.
-  Definition add_text (st : state) (t : tree) : state :=
-    match s_stack st with
-    | [] => st
-    | f :: r => mkS (add_kid f t :: r) None (s_stream st)
     end.
   Definition map_cur (g : frame -> frame) (st : state) : state :=
     match s_stack st with
@@ -546,8 +560,9 @@ Definition render_name (n : name) : bytes :=
   match fst n with [] => snd n | p => p ++ bs ":" ++ snd n end.
 Definition render_nt (nt : nametest) : bytes :=
   match nt with NTAny => bs "*" | NTName p l => render_name (p, l) end.
-Definition Q1 : byte := x27.  (* single quote *)
-Definition Q2 : byte := x22.  (* double quote *)
+(* the two quote characters of the backward scan, extracted from idr/util.go (Gen/StreamSplit.v) *)
+Definition Q1 : byte := gen_quote1.  (* single quote *)
+Definition Q2 : byte := gen_quote2.  (* double quote *)
 Definition quote (v : bytes) : bytes :=
   if existsb (Byte.eqb Q1) v then Q2 :: v ++ [Q2] else Q1 :: v ++ [Q1].
 Definition digit (n : nat) : bytes :=
@@ -586,7 +601,7 @@ Definition render_target (tg : target) : bytes := render_steps (t_steps tg) ++ r
 (* The Go code scans the runes backwards for ASCII brackets and quotes; on valid UTF-8 that is
    the same scan over bytes.  [l] is the reversed text still to scan, [bracket] the Go counter,
    [q] the quote being skipped.  Result: the reversed prefix before the matching '['. *)
-Definition LB : byte := x5b. Definition RB : byte := x5d.
+Definition LB : byte := gen_open_bracket. Definition RB : byte := gen_close_bracket.  (* extracted *)
 Fixpoint rlf_scan (l : list byte) (bracket : nat) (q : option byte) : option (list byte) :=
   match l with
   | [] => None                                        (* goto fail / loop ends *)
@@ -613,8 +628,7 @@ Definition remove_last_filter (x : bytes) : bytes :=
 (* removeTrailingFiltersInXPath (F21 repair): strip the last filter of the right-trimmed text until
    nothing changes.  The Go loop is unbounded; here it is fuelled (None = out of fuel), and the
    fuel given by [remove_trailing_filters] is never exhausted (Proofs: rtf_fuel_enough). *)
-Definition is_ws (c : byte) : bool :=
-  Byte.eqb c x20 || Byte.eqb c x09 || Byte.eqb c x0d || Byte.eqb c x0a.
+Definition is_ws (c : byte) : bool := existsb (Byte.eqb c) gen_trim_cutset.  (* strings.TrimRight cutset, extracted *)
 Fixpoint drop_ws (l : list byte) : list byte :=
   match l with
   | c :: r => if is_ws c then drop_ws r else l
@@ -635,6 +649,12 @@ Definition split_filter (x : bytes) : option (bytes * bool) :=
   match remove_trailing_filters x with
   | Some nf => Some (nf, negb (bytes_eqb x nf))
   | None => None
+  end.
+(* which of the two a reader uses is extracted from New*StreamReader (Gen/StreamSplit.v) *)
+Definition split_filter_by (fn : gen_splitfn) (x : bytes) : option (bytes * bool) :=
+  match fn with
+  | GenSplitTrailing => split_filter x
+  | GenSplitLast => let nf := remove_last_filter x in Some (nf, negb (bytes_eqb x nf))
   end.
 (* before the F21 repair: only the last filter was stripped *)
 Definition split_filter_old (x : bytes) : bytes * bool :=
@@ -673,7 +693,7 @@ Definition xtoken_eqb (a b : xtoken) : bool :=
 
 Definition check_xcase (c : xcase) : bool :=
   let tg := xc_target c in
-  match split_filter (xc_xpath c) with None => false | Some (nf, hasf) =>
+  match split_filter_by gen_xml_splitfn (xc_xpath c) with None => false | Some (nf, hasf) =>
   (* the tokenizer model: the token stream is the one the document determines *)
   list_eqb xtoken_eqb (xdoc_events (xc_doc c)) (xc_tokens c)
   (* the target term and the xpath text are the same target; the split is the code's split *)
@@ -709,7 +729,7 @@ Definition jtoken_eqb (a b : jtoken) : bool :=
 
 Definition check_jcase (c : jcase) : bool :=
   let tg := jc_target c in
-  match split_filter (jc_xpath c) with None => false | Some (nf, hasf) =>
+  match split_filter_by gen_json_splitfn (jc_xpath c) with None => false | Some (nf, hasf) =>
   jwf (jc_doc c)
   && list_eqb jtoken_eqb (jdoc_events (jc_doc c)) (jc_tokens c)
   && bytes_eqb (render_target tg) (jc_xpath c)
@@ -831,6 +851,79 @@ Definition check_fcase (c : fcase) : bool :=
     (map snd (flat_run nat (fun n => n) (fc_standalone c) (fc_above c) (mkFS nat [] false) recs))
     (fc_sizes c).
 
-Inductive c17case := C17Stream (c : c04case) | C17Flat (c : fcase).
+(* ---- C17: xpath expressions of the transform and the process-wide expression cache --------------- *)
+(* idr/query.go loadXPathExpr over caches.XPathExprCache (the set of cached expression texts; the
+   LRU capacity is not modelled): with DisableXPathCache the expression is compiled and nothing is
+   stored.  transform/parse.go: an xpath_dynamic is queried with that flag.  Both facts are
+   extracted (Gen/StreamSplit.v). *)
+Definition xp_cache := list bytes.
+Definition cache_mem (x : bytes) (c : xp_cache) : bool := existsb (bytes_eqb x) c.
+Definition load_xpath (disable : bool) (x : bytes) (c : xp_cache) : xp_cache :=
+  if disable && gen_disable_flag_bypasses_cache then c
+  else if cache_mem x c then c else x :: c.
+(* one xpath query of the transform: [dynamic] = the text comes from xpath_dynamic *)
+Definition query_xpath (c : xp_cache) (q : bool * bytes) : xp_cache :=
+  load_xpath (fst q && gen_dynamic_xpath_disables_cache) (snd q) c.
+Definition query_all (qs : list (bool * bytes)) (c : xp_cache) : xp_cache := fold_left query_xpath qs c.
+
+Record pcase := mkPCase {
+  pc_before : list bytes;             (* keys of caches.XPathExprCache before the run *)
+  pc_queries : list (bool * bytes);   (* the xpath queries the transform makes, record by record *)
+  pc_after : list bytes;              (* keys after the run *)
+}.
+Definition set_eqb (a b : list bytes) : bool :=
+  forallb (fun x => cache_mem x b) a && forallb (fun x => cache_mem x a) b.
+Definition check_pcase (c : pcase) : bool :=
+  set_eqb (query_all (pc_queries c) (pc_before c)) (pc_after c).
+
+Inductive c17case := C17Stream (c : c04case) | C17Flat (c : fcase) | C17XPath (c : pcase).
 Definition check_case17 (c : c17case) : bool :=
-  match c with C17Stream c => check_case c | C17Flat c => check_fcase c end.
+  match c with C17Stream c => check_case c | C17Flat c => check_fcase c | C17XPath c => check_pcase c end.
+
+(* ---- C04: several readers alive at once ------------------------------------------------------------ *)
+(* A reader is its state, the Release pattern and the tokens its decoder still has; one scheduling
+   step lets reader [i] consume ONE token.  Nothing is shared between the readers of the model:
+   that is the assumption the interleaving oracle of the harness checks on the implementation
+   (C04-r32: a namespace table that became process-wide). *)
+Section System.
+  Variable pm : list name -> bool.
+  Variable pred : tree -> bool.
+  Variable has_filter : bool.
+
+  Inductive rstatus := Running | Ended (f : final).
+  Record xreader := mkXR { xr_st : state; xr_rel : list bool; xr_toks : list xtoken;
+                           xr_out : list (tree * nat); xr_status : rstatus }.
+
+  (* one token of one reader: exactly one turn of the loop of [xrun] *)
+  Definition xreader_step (rd : xreader) : xreader :=
+    match xr_status rd with
+    | Ended _ => rd
+    | Running =>
+        match xr_toks rd with
+        | [] => mkXR (xr_st rd) (xr_rel rd) [] (xr_out rd) (Ended FEOF)
+        | tk :: r =>
+            match xstep pm pred has_filter false (xr_st rd) tk with
+            | RPanic => mkXR (xr_st rd) (xr_rel rd) r (xr_out rd) (Ended FPanic)
+            | RErr => mkXR (xr_st rd) (xr_rel rd) r (xr_out rd) (Ended FErr)
+            | RCont st' => mkXR st' (xr_rel rd) r (xr_out rd) Running
+            | RDeliver t n st' =>
+                let st1 := if hd false (xr_rel rd) then release st' else Some st' in
+                match match st1 with Some s => read_prologue s | None => None end with
+                | None => mkXR st' (xr_rel rd) r (xr_out rd ++ [(t, n)]) (Ended FUnmodelled)
+                | Some st2 => mkXR st2 (tl (xr_rel rd)) r (xr_out rd ++ [(t, n)]) Running
+                end
+            end
+        end
+    end.
+
+  Fixpoint update_nth {A} (i : nat) (f : A -> A) (l : list A) : list A :=
+    match l, i with
+    | [], _ => []
+    | x :: r, O => f x :: r
+    | x :: r, S j => x :: update_nth j f r
+    end.
+  (* the schedule names, step by step, the reader that runs next *)
+  Definition sys_run (sched : list nat) (rds : list xreader) : list xreader :=
+    fold_left (fun rs i => update_nth i xreader_step rs) sched rds.
+  Definition xreader_init (rel : list bool) (toks : list xtoken) : xreader := mkXR x_init rel toks [] Running.
+End System.
